@@ -186,7 +186,7 @@ theorem leaf_spec {k : LeafKind} {t : Text} (h : leafOk k t = true) :
 
 theorem nameOk_spec {n : Text} (h : nameOk n = true) : splitAttrpathF n = .ok [n] ∧ solidT n := by
   simp only [nameOk, Bool.and_eq_true, decide_eq_true_eq, Bool.not_eq_true', List.isEmpty_eq_false_iff] at h
-  obtain ⟨⟨hs, hne⟩, hnl⟩ := h
+  obtain ⟨⟨⟨hs, hne⟩, hnl⟩, _⟩ := h
   refine ⟨hs, hne, ?_⟩
   have := getLast?_ne_nl_of_no_nl n hnl
   simp [endsWithNL, this]
